@@ -9,7 +9,7 @@
    and are therefore decided at the code level by the correspondence/oracle only. *)
 From PG Require Import Common.Tactics Model.Geno Model.Evo Model.EvoOps
   Proofs.GenoConcrete Proofs.EvoBase Proofs.EvoSel Proofs.EvoComp Proofs.EvoMut Proofs.EvoSwap Proofs.EvoSeg Proofs.EvoPw Proofs.EvoRec
-  Proofs.EvoPwTotal Proofs.EvoExamples.
+  Proofs.EvoPwTotal Proofs.EvoPermSmall Proofs.EvoExamples.
 
 (* the contract assumed of random.Random is satisfiable *)
 Theorem C14_rng_contract_inhabited : rng_ok first_rng.
@@ -101,6 +101,13 @@ Proof.
   destruct (bind_complete q s c Hwf Hc) as (b & Hb & _ & Ha). eauto.
 Qed.
 Print Assumptions C14_recombinator_closed_permutation_partial.
+
+(* small scope, exhaustively: for every pair of parent permutations of 2, 3 and 4 values, every pair of cutting points
+   (PMX, Order) and every sequence of coin flips (Cycle), both proposals are permutations of the parents' values *)
+Theorem C14_permutation_crossovers_small_scope :
+  forallb (check_cut pmx_child) [2; 3; 4] && forallb (check_cut ox_child) [2; 3; 4] && forallb check_cycle [2; 3; 4] = true.
+Proof. rewrite pmx_small, ox_small, cycle_small. reflexivity. Qed.
+Print Assumptions C14_permutation_crossovers_small_scope.
 
 (* ---- every primitive, hence every expression over the shipped operators -------------------------------------- *)
 Theorem C14_primitives_closed : forall R (G : rng R), rng_ok G -> forall s, wf s = true ->
